@@ -148,6 +148,12 @@ func badCase(r *SeqReport, seen map[string]bool, n int, pos []int, bad any, badN
 		add("C12.crash", firstLine(x.Crash)+" @ "+x.CrashFrame)
 		return
 	}
+	for _, v := range order {
+		if v == -1 || v >= n {
+			add("C12.bad-ran", fmt.Sprintf("a stored entry that is not one valid job envelope (%s) was executed as a job", badName))
+			return
+		}
+	}
 	if len(order) != n {
 		add("C12.bad-blocks", fmt.Sprintf("an undecodable entry (%s) kept valid jobs behind it from running", badName))
 		return
@@ -335,6 +341,9 @@ func init() {
 			{"garbage bytes", []byte("{{{")}, {"unknown status", []byte(`{"id":"x","status":"Bogus","data":1}`)}, {"foreign JSON array", []byte(`[1,2,3]`)},
 			{"JSON string", []byte(`"str"`)}, {"empty entry", []byte("")}, {"payload of another type", []byte(`{"id":"x","status":"Created","data":"notanint"}`)},
 			{"non-byte entry", 12345}, {"string entry", "raw"},
+			{"valid envelope followed by junk", []byte(`{"id":"ghost","status":"Created","data":77}xyz`)},
+			{"two envelopes glued together", []byte(`{"id":"ghost","status":"Created","data":77}{"id":"ghost2","status":"Created","data":78}`)},
+			{"valid envelope followed by a stale tail", []byte(`{"id":"ghost","status":"Queued","data":77}","data":123456}`)},
 		}
 		for _, via := range []string{"pers", "dist"} {
 			for _, b := range bads {
@@ -352,7 +361,7 @@ func init() {
 	}
 	Register(&Scenario{Name: "seq-fidelity/quick", Props: []string{"C12", "C07"}, Seq: true, Only: "quick", SeqRun: func(r *SeqReport) {
 		run(r, false)
-		r.Notes = append(r.Notes, "payload shapes x value alphabet x 8 IDs x {persistent, persistent-priority, distributed, distributed-priority}; every ordered pair of strings / integers and triples of structured values pending together, with explicit, generated and absent IDs; 8 kinds of bad entries at every position among <= 3 valid ones")
+		r.Notes = append(r.Notes, "payload shapes x value alphabet x 8 IDs x {persistent, persistent-priority, distributed, distributed-priority}; every ordered pair of strings / integers and triples of structured values pending together, with explicit, generated and absent IDs; 11 kinds of bad entries at every position among <= 3 valid ones")
 	}})
 	Register(&Scenario{Name: "seq-fidelity/thorough", Props: []string{"C12", "C07"}, Seq: true, Only: "thorough", SeqRun: func(r *SeqReport) {
 		run(r, true)
